@@ -267,6 +267,10 @@ def gen_custom(rng):
         used.add(kk)
         attrs = rng.sample(LOCALS, rng.randint(0, 4))
         attrs = [case_variant(rng, a) for a in attrs]
+        if kind == 0:
+            # the injected module honours the pinned fact about always-released items (Spec/C10.lean):
+            # nothing but eduPersonTargetedID
+            attrs = rng.choice([[], ["eduPersonTargetedID"], ["EDUPERSONTARGETEDID"], ["edupersontargetedid"]])
         entries.append([kind, keys, attrs, rng.random() < 0.35, rng.random() < 0.3])
     return entries
 
@@ -355,9 +359,35 @@ def category_attrs(rng):
     return [a for a in attrs if a in LOCALS] or LOCALS[:6]
 
 
+def table_sweep_cases():
+    """every RELEASE item of every bundled module once: a requester in exactly the item's categories, a user
+    holding every attribute any bundled item lists (plus one none lists), without and with required attributes"""
+    tables = _bundled()
+    every = []
+    for _, entries in tables:
+        for e in entries:
+            for a in e[2]:
+                if a not in every:
+                    every.append(a)
+    identity = [[a, {"l": ["v-" + a]}] for a in every] + [["x-unlisted", {"l": ["v"]}]]
+    sec = {"ar": None, "ar_key": False, "fomr": None, "ec": [], "ec_key": True, "lifetime": True, "nonempty": True}
+    for name, entries in tables:
+        for kind, keys, attrs, o, n in entries:
+            for with_req in (False, True):
+                ras = []
+                if with_req:
+                    ras = [{"name": OID.get(a, "urn:x-c10:unknown:" + a), "name_format": URI, "friendly_name": a,
+                            "values": [], "required": True} for a in attrs[:2]]
+                yield {"op": "restrict", "identity": identity, "policy": [["default", dict(sec, ec=[name])]],
+                       "sps": [{"entity_id": SP1, "ra": None, "cats": list(keys), "subj": None, "ras": ras, "split": False}],
+                       "sp": SP1, "custom": {}, "has_mds": True}
+
+
 def gen_cases(rng, tier):
-    n_scen = 260 if tier == "quick" else 2600
+    n_scen = 560 if tier == "quick" else 2800
     per = 7 if tier == "quick" else 9
+    for c in table_sweep_cases():
+        yield c
     for s in range(n_scen):
         prefer = category_attrs(rng) if rng.random() < 0.6 else []
         base_identity = gen_identity(rng, prefer)
@@ -384,7 +414,11 @@ def gen_cases(rng, tier):
                 case["opt"] = [r for r in ras if not r["required"]]
                 case["has_mds"] = rng.random() < 0.85
             if op == "authn_response":
-                case["best_effort"] = rng.choice([None, None, False, True])
+                if rng.random() < 0.3:
+                    case["op"] = "setup_assertion"  # the anchored mechanism itself, with its best_effort argument
+                    case["best_effort"] = rng.choice([False, False, True])
+                else:
+                    case["best_effort"] = rng.choice([None, None, False, True])
             yield case
 
 
@@ -577,6 +611,11 @@ def _read_response(resp):
         if assertions:
             raise AssertionError("error status together with an assertion")
         return {"r": "error_response"}
+    return _read_attribute_statements(assertions)
+
+
+def _read_attribute_statements(assertions):
+    A = "{urn:oasis:names:tc:SAML:2.0:assertion}"
     ava = {}
     for a in assertions:
         for st in a.findall(A + "AttributeStatement"):
@@ -587,6 +626,16 @@ def _read_response(resp):
                     nid = av.find(A + "NameID")
                     vals.append((nid.text if nid is not None else av.text) or "")
     return {"r": "assertion", "ava": [[k, {"l": v}] for k, v in ava.items()]}
+
+
+def _read_setup_result(res):
+    """Server.setup_assertion returns a saml.Assertion, or the lines of an error Response"""
+    if isinstance(res, list):
+        return _read_response("\n".join(res))
+    root = ET.fromstring(str(res))
+    if root.tag != "{urn:oasis:names:tc:SAML:2.0:assertion}Assertion":
+        raise AssertionError("unexpected result of setup_assertion: %s" % root.tag)
+    return _read_attribute_statements([root])
 
 
 def run_impl(case):
@@ -600,6 +649,7 @@ def run_impl(case):
     ident = _py_identity(case["identity"])
     before = copy.deepcopy(ident)
     out = None
+    res = resp = None
     if op in ("filter", "restrict", "apply_policy"):
         if op == "filter" and not case["has_mds"]:
             pol = Policy(copy.deepcopy(_state["pconf"]), None)
@@ -628,7 +678,13 @@ def run_impl(case):
         nid = saml.NameID(text="subject-c10", format=saml.NAMEID_FORMAT_TRANSIENT)
         try:
             with S.clock(S.NOW0):
-                if op == "authn_response":
+                if op == "setup_assertion":
+                    res = idp.setup_assertion(
+                        {"class_ref": "urn:oasis:names:tc:SAML:2.0:ac:classes:Password", "authn_auth": "c10"},
+                        case["sp"], "id-c10", S.SP_ACS_POST, nid, idp.config.getattr("policy", "idp"),
+                        idp._issuer(), None, ident, bool(case["best_effort"]), False)
+                    resp = None
+                elif op == "authn_response":
                     kw = {} if case.get("best_effort") is None else {"best_effort": case["best_effort"]}
                     resp = idp.create_authn_response(
                         ident, "id-c10", S.SP_ACS_POST, case["sp"], name_id=nid,
@@ -637,7 +693,7 @@ def run_impl(case):
                 else:
                     resp = idp.create_attribute_response(ident, "id-c10", S.SP_ACS_POST, case["sp"], name_id=nid,
                                                          sign_response=False, sign_assertion=False)
-            out = _read_response(resp)
+            out = _read_setup_result(res) if op == "setup_assertion" else _read_response(resp)
         except MissingValue:
             out = {"r": "raised", "e": "missing"}
         except (AttributeError, KeyError, TypeError, UnboundLocalError) as e:
@@ -663,7 +719,8 @@ def _norm_ava(ava, wire):
 def _norm(case, o):
     if o is None:
         return None
-    wire = case["op"] in ("authn_response", "attribute_response")
+    # released data = attribute -> values; a str value and a one-element list are the same release
+    wire = True
     res = {"r": o.get("r"), "unchanged": o.get("unchanged")}
     if "e" in o:
         res["e"] = o["e"]
@@ -699,7 +756,8 @@ def finding_key(case, impl, lean):
         return None
     if lean.get("spec_model") is not False:
         return None
-    if case["op"] == "authn_response" and (lean.get("inner") or {}).get("r") == "missing" and impl.get("r") == "assertion":
+    if case["op"] in ("authn_response", "setup_assertion") and (lean.get("inner") or {}).get("r") == "missing" \
+            and impl.get("r") == "assertion":
         # MissingValue swallowed: the assertion carries exactly the caller's identity
         if _norm_ava(impl.get("ava"), True) == _norm_ava(case["identity"], True):
             return KEY_F8
@@ -777,10 +835,12 @@ def shrink(case):
 
 def neighbours(case, rng):
     """directed search around a disagreement: the same scenario through every entry point"""
-    for op in ("restrict", "apply_policy", "authn_response", "attribute_response"):
+    for op in ("restrict", "apply_policy", "authn_response", "attribute_response", "setup_assertion"):
         if op != case["op"] and case["op"] != "filter":
             c = copy.deepcopy(case)
             c["op"] = op
+            if op == "setup_assertion":
+                c["best_effort"] = False
             yield c
     for c in list(shrink(case))[:60]:
         yield c
